@@ -4,7 +4,7 @@ import shapes, nslgen, gentyped, vmcases, ircoq
 from common import TranslatorAbort, coq_list
 from nslgen import *
 
-STATIC = ["Model/IR.v", "Model/VM.v", "Model/PyTree.v", "Proofs/HistoryProofs.v", "Spec/RefSem.v"]
+STATIC = ["Model/IR.v", "Model/VM.v", "Model/PyTree.v", "Proofs/HistoryProofs.v", "Spec/RefSem.v", "Proofs/HistoryRefineProofs.v", "Proofs/HistoryExample.v", "Harness/HistLib.v"]
 
 
 def aggregate_programs():
@@ -102,6 +102,22 @@ def run(ctx):
                 c["globals"] = {"total": rng.choice([0, 10, -4])}
             calls.append(c)
         cases.append((name, m, calls))
+    # programs of straight-line functions over two globals: the fragment of the history refinement theorem
+    from props import c01
+    for (m, cl, text) in c01.straight_programs(ctx, 30 if ctx.tier == "quick" else 600):
+        fns = [(it["n"], it["args"]) for it in m["items"] if it["k"] == "func"]
+        calls = []
+        for vmid in (0, 1):
+            fname, params = fns[0]
+            calls.append({"vm": vmid, "fn": fname, "args": {a_["n"]: (1 if a_["t"] == "int" else 0.5) for a_ in params}, "globals": {"g0": rng.randrange(-3, 4), "g1": rng.choice([0.5, 1.25])}, "read_globals": ["g0", "g1"]})
+        for _ in range(rng.randint(*hist_len)):
+            fname, params = rng.choice(fns)
+            c = {"vm": rng.choice([0, 0, 1]), "fn": fname, "args": {a_["n"]: (rng.randrange(-6, 9) if a_["t"] == "int" else rng.choice([0.5, -1.25, 3.0, 0.1, 7.5])) for a_ in params},
+                 "globals": {}, "read_globals": ["g0", "g1"]}
+            if rng.random() < 0.1:
+                c["globals"] = {"g0": rng.randrange(-3, 4)}
+            calls.append(c)
+        cases.append(("straight-line", m, calls))
     for k in range(40 if ctx.tier == "quick" else 1200):
         g = gentyped.TGen(rng, floats=True, arrays=True, structs=(k % 2 == 0), calls=(k % 3 == 0), max_depth=2)
         m, exported, globs = g.module()
@@ -136,10 +152,20 @@ def run(ctx):
                 break
         cs = coq_list(["(%d%%nat, %s)" % (c["vm"], vmcases.coq_call(c)) for c in calls])
         defs = "Definition P_%d : program := %s.\nDefinition M_%d : module := %s.\n" % (k, prog, k, nslgen.coq_module(m))
-        blocks.append((defs, "run_case_vms fuel M_%d P_%d %s %s" % (k, k, cs, coq_list(obs)))); meta.append((name, j["src"], calls, r))
+        expr = "run_case_vms fuel M_%d P_%d %s %s" % (k, k, cs, coq_list(obs))
+        if name == "straight-line":
+            expr = "(%s + 1000 * hist_case M_%d)" % (expr, k)
+        blocks.append((defs, expr)); meta.append((name, j["src"], calls, r))
     files = vmcases.write_case_files(ctx, "C15", blocks, per=6)
     outs = ctx.eval_cases(files, timeout=900)
     codes = vmcases.collect_codes(ctx, files, outs, len(blocks), per=6)
+    hfrag = {"programs": 0, "programs_inside_proved_fragment": 0, "exported_functions": 0, "functions_passing_the_test": 0}
+    for n_, c in enumerate(codes):
+        if c is not None and c >= 1000:
+            hc = c // 1000
+            codes[n_] = c % 1000
+            hfrag["programs"] += 1; hfrag["programs_inside_proved_fragment"] += 1 if hc >= 10000 else 0
+            hfrag["exported_functions"] += (hc % 10000) // 100; hfrag["functions_passing_the_test"] += hc % 100
     bad_spec = [x for x, c in zip(meta, codes) if c is not None and c & 2]
     bad_model = [x for x, c in zip(meta, codes) if c is not None and c & 1]
     nops = sum(len(c) for _, _, c in cases)
@@ -148,10 +174,10 @@ def run(ctx):
     ctx.cov["programs"] = len(cases)
     ctx.cov["rule"] = ("histories of %d-%d host operations (SetGlobal of typed values, Invoke of any exported function, GetGlobal of every global) interleaved on two VMs of the same "
                        "linked program: programs with default-initialised locals of every aggregate shape (1-3 dimensional arrays, structs, arrays of structs, structs holding arrays and "
-                       "structs) updated in place and accumulated into globals, a program keeping an array and counters in globals, a program of recursive functions that keep an argument, a local and a local array alive across the recursive call, and random programs of the C01 generator; observations "
+                       "structs) updated in place and accumulated into globals, a program keeping an array and counters in globals, a program of recursive functions that keep an argument, a local and a local array alive across the recursive call, programs of straight-line functions over two globals (the fragment of the history refinement theorem; its decidable hypotheses are tested inside Coq per program), and random programs of the C01 generator; observations "
                        "compared step by step inside Coq with per-VM states of the heap VM model and of the reference state machine. Non-trivial: every history; distinct by content." % hist_len)
     ctx.cov["samples"] = [{"program": n, "history_prefix": c[:4], "impl_prefix": r["calls"][:4]} for n, t, c, r in meta[:2]]
-    ctx.extra["input_distribution"] = {"histories": len(cases), "operations": nops, "spec_skipped": sum(1 for c in codes if c is not None and c & 8), "model_skipped": sum(1 for c in codes if c is not None and c & 4)}
+    ctx.extra["input_distribution"] = {"straight_line_programs": hfrag, "histories": len(cases), "operations": nops, "spec_skipped": sum(1 for c in codes if c is not None and c & 8), "model_skipped": sum(1 for c in codes if c is not None and c & 4)}
     ctx.extra["disagreements_checked"] = len(codes)
     if bad_spec or direct_bad:
         if bad_spec:
